@@ -9,7 +9,7 @@ import (
 )
 
 func init() {
-	props["C17"] = propC17
+	props["C17"] = bothCapacities(propC17)
 	props["C18"] = propC18
 }
 
